@@ -172,6 +172,9 @@ func runC09(r *core.R) {
 					}
 				})
 				rep := map[string]any{"layer": "filter", "filter": e.filter, "shape": e.shape, "limit": L, "decoded_size": n}
+				if n == L+1 && L == 4096 {
+					r.Sample(map[string]any{"layer": "filter", "filter": e.filter, "shape": e.shape, "limit": L, "decoded_size": n, "encoded_size": len(e.enc), "error": fmt.Sprint(err), "allocated": alloc})
+				}
 				key := fmt.Sprintf("%s:%s", e.filter, e.shape)
 				c09Judge(r, "filter:"+key, fmt.Sprintf("filter %s (%s), limit %d, true decoded size %d", e.filter, e.shape, L, n), rep, L, n, len(e.enc), got, err, alloc, e)
 			}
